@@ -54,7 +54,7 @@ func (g Graph) Build() *astisub.Subtitles {
 		}
 		ln := astisub.Line{VoiceName: fmt.Sprintf("v%d", i)}
 		for j, r := range c.Runs {
-			li := astisub.LineItem{Text: fmt.Sprintf("t%d%d", i, j), StartAt: time.Duration(1000+j) * time.Millisecond, InlineStyle: &astisub.StyleAttributes{SRTBold: true}}
+			li := astisub.LineItem{Text: fmt.Sprintf("t%d%d", i, j), StartAt: time.Duration((1000+j)*((j+1)%2)) * time.Millisecond, InlineStyle: &astisub.StyleAttributes{SRTBold: true}} // every other run carries an inline timestamp
 			if r != "" {
 				li.Style = s.Styles[r]
 			}
